@@ -20,7 +20,7 @@
 (***************************************************************************)
 EXTENDS SchemaRules
 
-Fail(s, why, off) == [ok |-> FALSE, s |-> s, why |-> why, off |-> off]
+Fail(s, why, off) == [ok |-> FALSE, s |-> s, why |-> why, off |-> off, offs |-> {off}]
 
 IsFault(d) == d.kind \in {"SYNTAX", "READFAULT"}
 NewDefs(doc) == SelectSeq(doc, LAMBDA d : ~d.ext /\ d.kind # "SCHEMA" /\ ~IsFault(d))
@@ -34,7 +34,7 @@ CoreTypeNames == BuiltinScalars \cup {"__Type", "__Schema", "__Field", "__InputV
 \* except that a scalar whose name is taken is silently ignored (documented in addTypes)
 RECURSIVE AddNew(_, _, _)
 AddNew(s, defs, i) ==
-  IF i > Len(defs) THEN [ok |-> TRUE, s |-> s, why |-> "", off |-> ""]
+  IF i > Len(defs) THEN [ok |-> TRUE, s |-> s, why |-> "", off |-> "", offs |-> {}]
   ELSE LET d == defs[i] IN
        IF d.kind = "DIRECTIVE"
        THEN IF d.name \in DOMAIN s.dirs \cup DOMAIN CoreDirs THEN Fail(s, "duplicate", d.name)
@@ -50,7 +50,7 @@ RootsOf(sd) == [op \in {"query", "mutation", "subscription"} |->
 \* merge the extend blocks in order
 RECURSIVE AddExt(_, _, _)
 AddExt(s, exts, i) ==
-  IF i > Len(exts) THEN [ok |-> TRUE, s |-> s, why |-> "", off |-> ""]
+  IF i > Len(exts) THEN [ok |-> TRUE, s |-> s, why |-> "", off |-> "", offs |-> {}]
   ELSE LET x == exts[i] IN
        IF x.kind = "SCHEMA"
        THEN IF ~s.explicit THEN Fail(s, "extend_not_found", "schema")
@@ -80,6 +80,6 @@ LoadResult(s, doc, dv) ==
             IF ~b.ok THEN Fail(s, b.why, b.off)
             ELSE LET s2 == IF b.s.explicit THEN b.s ELSE [b.s EXCEPT !.roots = ImplicitRoots(b.s.types)]
                      vs == Violations(s2, dv) IN
-                 IF vs # {} THEN Fail(s, "invalid", (CHOOSE v \in vs : TRUE).off)
-                 ELSE [ok |-> TRUE, s |-> s2, why |-> "", off |-> ""]
+                 IF vs # {} THEN [ok |-> FALSE, s |-> s, why |-> "invalid", off |-> (CHOOSE v \in vs : TRUE).off, offs |-> {v.off : v \in vs}]
+                 ELSE [ok |-> TRUE, s |-> s2, why |-> "", off |-> "", offs |-> {}]
 =============================================================================
